@@ -3,7 +3,7 @@ import hsuite
 from props.c03 import TRUSTED, ASSUMPTIONS
 COQCHK = False
 NAMES = ['c05', 'c04']
-PROFILE = {'quick': 500, 'thorough': 3000, 'lengths': [10, 18, 28], 'finale': ['settle', 'sweep'], 'weights': {'disc': 8, 'disc_all': 2, 'post': 14, 'frame': 14, 'wsclose': 6, 'adv': 16, 'open_rej': 5, 'send': 8, 'poll': 10, 'upgrade': 5}, 'p_async': 0.4, 'p_monitor': 0.85}
+PROFILE = {'quick': 500, 'thorough': 25000, 'lengths': [10, 18, 28], 'finale': ['settle', 'sweep'], 'weights': {'disc': 8, 'disc_all': 2, 'post': 14, 'frame': 14, 'wsclose': 6, 'adv': 16, 'open_rej': 5, 'send': 8, 'poll': 10, 'upgrade': 5}, 'p_async': 0.4, 'p_monitor': 0.85}
 RULE = ('seeded histories (opens with every connect outcome, polls, posts, upgrade handshakes, WebSocket frames and closes, application calls, refused requests, clock advances) over up to 4 sessions, each run on the threaded and the asyncio server and through the model; '
         'weighted towards every cause of a session end (CLOSE packet, disconnect() of one and of all sessions, transport drops, clock advances across heartbeat deadlines, protocol errors, handler exceptions) and rejected opens; finished by a long advance so that every end is detected. distinct = distinct (server, configuration, stimuli)')
 
